@@ -126,25 +126,24 @@ Definition cycle_ok (n : Z) : bool :=
   (1 <=? y) && (y <=? 400) && (1 <=? m) && (m <=? 12) && (1 <=? d) && (d <=? days_in_month y m)
   && (ordinal_of_ymd y m d =? n).
 
-Fixpoint all_upto (f : Z -> bool) (k : nat) (base : Z) : bool :=
-  match k with O => true | S j => f (base + Z.of_nat k) && all_upto f j base end.
+Fixpoint all_upto (f : Z -> bool) (k : nat) (i : Z) : bool :=
+  match k with O => true | S j => f i && all_upto f j (i + 1) end.
 
-Lemma all_upto_spec f k base : all_upto f k base = true ->
-  forall i, 1 <= i <= Z.of_nat k -> f (base + i) = true.
+Lemma all_upto_spec f k i0 : all_upto f k i0 = true ->
+  forall i, i0 <= i < i0 + Z.of_nat k -> f i = true.
 Proof.
-  induction k as [|k IH]; intros H i Hi; [lia|].
+  revert i0. induction k as [|k IH]; intros i0 H i Hi; [lia|].
   cbn [all_upto] in H. apply andb_true_iff in H. destruct H as [H1 H2].
-  destruct (Z.eq_dec i (Z.of_nat (S k))) as [->|Hne]; [exact H1|].
-  apply IH; [exact H2|lia].
+  destruct (Z.eq_dec i i0) as [->|Hne]; [exact H1|].
+  apply (IH (i0 + 1)); [exact H2|lia].
 Qed.
 
-Lemma cycle_checked : all_upto cycle_ok 146097 0 = true.
-Proof. vm_compute. reflexivity. Qed.
+Lemma cycle_checked : all_upto cycle_ok (Z.to_nat 146097) 1 = true.
+Proof. vm_cast_no_check (eq_refl true). Qed.
 
 Lemma cycle_ok_all n : 1 <= n <= 146097 -> cycle_ok n = true.
 Proof.
-  intros Hn. replace n with (0 + n) by lia.
-  apply (all_upto_spec cycle_ok 146097 0 cycle_checked). lia.
+  intros Hn. apply (all_upto_spec cycle_ok (Z.to_nat 146097) 1 cycle_checked). lia.
 Qed.
 
 (* every ordinal n >= 1 denotes a calendar date (y, m, d) with 1 <= m <= 12, 1 <= d <= days_in_month,
@@ -201,7 +200,8 @@ Lemma day_of_year_bound y m d : 1 <= m <= 12 -> 1 <= d <= days_in_month y m ->
 Proof.
   intros Hm Hd. unfold days_before_month, days_in_month in *.
   assert (M : m = 1 \/ m = 2 \/ m = 3 \/ m = 4 \/ m = 5 \/ m = 6 \/ m = 7 \/ m = 8 \/ m = 9 \/ m = 10 \/ m = 11 \/ m = 12) by lia.
-  destruct (is_leap y); repeat (destruct M as [->|M]; [cbn in *; lia|]); subst; cbn in *; lia.
+  destruct (is_leap y); repeat (destruct M as [->|M]; [cbn [dbm_common Z.eqb Z.ltb Z.compare Pos.compare Pos.compare_cont Pos.eqb andb orb] in *; lia|]);
+    subst; cbn [dbm_common Z.eqb Z.ltb Z.compare Pos.compare Pos.compare_cont Pos.eqb andb orb] in *; lia.
 Qed.
 
 Lemma month_mono y m m' d d' : 1 <= m -> m < m' -> m' <= 12 -> 1 <= d <= days_in_month y m -> 1 <= d' ->
@@ -212,7 +212,8 @@ Proof.
   assert (M' : m' = 2 \/ m' = 3 \/ m' = 4 \/ m' = 5 \/ m' = 6 \/ m' = 7 \/ m' = 8 \/ m' = 9 \/ m' = 10 \/ m' = 11 \/ m' = 12) by lia.
   destruct (is_leap y);
     repeat (destruct M as [->|M]); subst;
-    repeat (destruct M' as [->|M']); subst; cbn in *; lia.
+    repeat (destruct M' as [->|M']); subst;
+    cbn [dbm_common Z.eqb Z.ltb Z.compare Pos.compare Pos.compare_cont Pos.eqb andb orb] in *; lia.
 Qed.
 
 Definition ymd_lt (a b : Z * Z * Z) : Prop :=
